@@ -1,8 +1,31 @@
-"""./check setup : build everything from files on disk (offline)."""
-import os, sys
-from . import sh, LEAN, VERIF
+"""./check setup : build everything from files on disk (offline): every Lean property module and
+driver executable, every harness crate against /repo's working tree. Checks rebuild on demand, so a
+partial failure here is reported but does not stop the rest."""
+import glob, os, re, shutil, sys, time
+from . import sh, LEAN, VERIF, BUILD, REPO
 
 def main():
-    rc, out, err = sh(["lake", "build"], cwd=LEAN, timeout=7200)
-    sys.stdout.write(out[-2000:]); sys.stderr.write(err[-2000:])
-    return rc
+    t0 = time.time()
+    rc_all = 0
+    lf = open(os.path.join(LEAN, "lakefile.toml")).read()
+    exes = re.findall(r'\[\[lean_exe\]\]\s*name\s*=\s*"([^"]+)"', lf)
+    mods = ["Fv.Props." + os.path.basename(p)[:-5] for p in sorted(glob.glob(os.path.join(LEAN, "Fv", "Props", "C*.lean")))]
+    for tgt in mods + exes:
+        rc, out, err = sh(["lake", "build", tgt], cwd=LEAN, timeout=7200)
+        print("lake build %-24s rc=%d (%.0fs)" % (tgt, rc, time.time() - t0)); sys.stdout.flush()
+        if rc:
+            rc_all = 1; sys.stdout.write((out + err)[-1500:] + "\n")
+    for d in sorted(glob.glob(os.path.join(VERIF, "harness", "*", "Cargo.toml"))):
+        name = os.path.basename(os.path.dirname(d))
+        if name == "common":
+            continue
+        hdir = os.path.dirname(d)
+        if not os.path.exists(os.path.join(hdir, "Cargo.lock")) and os.path.exists(os.path.join(REPO, "Cargo.lock")):
+            shutil.copy(os.path.join(REPO, "Cargo.lock"), os.path.join(hdir, "Cargo.lock"))
+        flags = "--cfg loom" if name == "chan" else "--cfg excsn_fibre_verif"
+        env = {"CARGO_TARGET_DIR": os.path.join(BUILD, "cargo", name), "RUSTFLAGS": flags}
+        rc, out, err = sh(["cargo", "build", "--release", "--offline"], cwd=hdir, env=env, timeout=7200)
+        print("cargo build harness/%-12s rc=%d (%.0fs)" % (name, rc, time.time() - t0)); sys.stdout.flush()
+        if rc:
+            rc_all = 1; sys.stdout.write(err[-1500:] + "\n")
+    return rc_all
